@@ -167,6 +167,14 @@ def worker(args):
                 'pc': m._reg.pc, 'len': len(m._program),
             }
         net = scripth.run_vm(case, prog, slots, vals, monitor=mon, post=post)
+        # which statements ran, in which order: the source's own answer (reference semantics, structure only)
+        mon.structure = None
+        if not net.aborted:
+            try:
+                interp = scripth.run_ref(case, vals, net)
+                mon.structure, _ = R.compare_traces(scripth.norm_vm_trace(net.trace), interp.trace, slack=1e-6)
+            except (R.OutOfScope, scripth.StepBound, KeyError):
+                pass          # outside what the reference semantics models (e.g. a routine defined inside a branch not taken)
         return vals, net, mon
 
     for ctx, out in symx.explore(harness, max_paths=args['max_paths'], timeout_ms=args['timeout_ms'],
@@ -189,6 +197,8 @@ def worker(args):
                 problems.append('run ended at pc %d of %d' % (e['pc'], e['len']))
             if mon.active:
                 problems.append('routine %s never returned' % mon.active[-1])
+            if not problems and getattr(mon, 'structure', None):
+                problems.append('a branch or loop led somewhere else than the source says: %s' % mon.structure)
         if not problems:
             res.reached.add('dynamic')
             continue
@@ -229,6 +239,13 @@ def replay_dynamic(case, prog, slots, cv):
             return 'run aborted: %s' % net.aborted
         if not end['root'] or end['depth'] != 0 or end['pc'] != end['n'] or mon.active:
             return 'unbalanced at exit: %r active=%r' % (end, mon.active)
+        try:
+            interp = scripth.run_ref(case, cv, net)
+            mm, _ = R.compare_traces(scripth.norm_vm_trace(net.trace), interp.trace, slack=1e-6)
+            if mm:
+                return 'statements executed differ from the source: %s' % mm
+        except (R.OutOfScope, scripth.StepBound, KeyError):
+            pass
         return None
     except symx.Abort:
         return None
